@@ -88,6 +88,9 @@ def run_history(cf, steps, pc_id, M, from_decoded=False, lazy=False):
         if from_decoded:
             # a message object created from a decoded command set (what the receiver builds), re-sent
             first = dg.expected_fields({'cf': cf, 'fields': steps[0]['fields'], 'data': steps[0]['data']})
+            if steps[0]['data']:
+                # the peer that sent it used another of the legal 'data set present' codes
+                first[0x0800] = (0x0001, 0x0000, 0x0102, 0xFFFF)[(pc_id + M + len(steps)) % 4]
             msg = cls(dsutils.decode(refcmd.encode(first), True, True))
         else:
             msg = cls()
